@@ -225,6 +225,9 @@ def case_reproject(mon: Monitor, rng: random.Random) -> None:
         if rng.random() < 0.5:
             ds = ds[["t", "b", "a", "scalar"]]
         ds.attrs["title"] = "keep or drop, not judged"
+        ds_spatial = rng.choice([{}, {"crs": str(src.crs)}, {"crs": str(src.crs), "grid_mapping": coord_name}, {"crs_wkt": src.crs.wkt, "epsg": src.crs.epsg or 0}])
+        ds.attrs.update(ds_spatial)
+        desc["dataset_attrs"] = sorted(ds_spatial)
         out, e = call(xr_reproject, ds, how) if rng.random() < 0.5 else call(ds.odc.reproject, how)
         if e is not None:
             return mon.fail("reproject", {**desc, "exc": e}, key="reproject-raises", cls=cls)
@@ -232,6 +235,8 @@ def case_reproject(mon: Monitor, rng: random.Random) -> None:
         ok = e2 is None and same_box(g_ds, want) and out.odc.crs == want.crs
         mon.check(ok, "reproject.dataset", lambda: {**desc, "recovered": gen.gbox_desc(g_ds) if g_ds is not None else None, "crs": str(out.odc.crs) if e2 is None else None, "exc": e2},
                   key="dataset-reproject-crs" if (e2 is None and g_ds is not None and g_ds.crs != want.crs) else "reproject-geobox", cls=cls, sig=hsig("rd", repr(desc)))
+        stale_ds = [k for k in ("crs", "crs_wkt", "grid_mapping", "gcps", "epsg") if k in out.attrs]
+        mon.check(not stale_ds, "reproject.dataset-attrs", lambda: {**desc, "stale_dataset_attrs": stale_ds}, key="reproject-stale-attrs", cls=cls + ("|spatial-ds-attrs" if ds_spatial else ""), sig=hsig("rda", repr(desc)))
         ok_pass = "t" in out and "scalar" in out and np.array_equal(out["t"].values, np.arange(3)) and float(out["scalar"]) == 7.5 and out["t"].dims == ("time",)
         mon.check(ok_pass, "reproject.passthrough", lambda: {**desc, "vars": list(out.data_vars)}, key="passthrough", cls=cls)
         outs = {"a": out["a"], "b": out["b"]}
@@ -272,7 +277,7 @@ def run(mon: Monitor, tier: str, seed: int, shard: int, nshards: int) -> None:
     mon.case = None
     for pt, n in [("roundtrip", 600), ("history", 800), ("reproject", 150), ("reproject.dataset", 30), ("reproject.passthrough", 30), ("reproject.then-op", 150), ("roundtrip|gcp", 30), ("roundtrip|rotated|thin", 3),
                   ("roundtrip|north-up|thin", 10), ("history|rotated|strided|reversed", 3), ("history|north-up|strided", 10), ("reproject|Dataset|cross|utm", 1), ("reproject|DataArray|cross|geobox", 10),
-                  ("reproject|Dataset|cross|geobox", 5)]:
+                  ("reproject|Dataset|cross|geobox", 5), ("reproject.dataset-attrs", 40)]:
         mon.floor(pt, n)
 
 
